@@ -6,6 +6,8 @@ import Osmium.Lemmas.PipelineLiveIds
 
 set_option linter.unusedSimpArgs false
 set_option linter.unusedVariables false
+set_option linter.unusedTactic false
+set_option linter.unreachableTactic false
 
 namespace Osmium.Pipeline
 open Osmium.Mon
@@ -34,9 +36,6 @@ theorem inv_kOk (c : Cfg α) : ∀ s, (machine c).Reachable s → kOk s.ppc := b
       | (simp_all [kOk, pCont]; done)
       | (cases ‹PK› <;> simp_all [kOk, pCont]; done)
       | (cases hh : s.ppc <;> simp_all [kOk, pCont]; done)
-
-set_option linter.unusedTactic false
-set_option linter.unreachableTactic false
 
 theorem none_eq_head? {β : Type} {l : List β} : none = l.head? ↔ l = [] := by cases l <;> simp
 theorem some_eq_head? {β : Type} {l : List β} {a : β} : some a = l.head? ↔ ∃ t, l = a :: t := by
@@ -118,8 +117,8 @@ theorem eodIn_setPc_even {w : Nat → Val α} {x n : Nat} {v : Val α} {l : List
     (hx : x % 2 = 0) (hl : ∀ y ∈ l, y.2 % 2 = 1 ∧ y.2 < n) (h : eodIn w l) : eodIn (setPc w x v) l := by
   obtain ⟨y, hy, hw⟩ := h
   refine ⟨y, hy, ?_⟩
-  have := hl y hy
-  rw [setPc_apply, if_neg (by omega)]; exact hw
+  have hne : ¬ y.2 = x := by have := hl y hy; omega
+  rw [setPc_apply, if_neg hne]; exact hw
 
 omit [DecidableEq α] in
 theorem cStill_of_setPc_even {w : Nat → Val α} {x n : Nat} {v : Val α} {p : CPc α}
@@ -127,7 +126,8 @@ theorem cStill_of_setPc_even {w : Nat → Val α} {x n : Nat} {v : Val α} {p : 
     cStill w p := by
   cases p <;> simp_all [cStill]
   rename_i id
-  rw [setPc_apply, if_neg (by omega)] at h; exact h
+  have hne : ¬ id = x := by omega
+  rw [setPc_apply, if_neg hne] at h; exact h
 
 omit [DecidableEq α] in
 theorem eodIn_tail {w : Nat → Val α} {l : List (QueueSM.Item Nat)} {it : QueueSM.Item Nat}
@@ -156,13 +156,16 @@ theorem inv_marker (c : Cfg α) : ∀ s, (machine c).Reachable s →
     have hO := (pcInv c s hr).pOut
     have hF := n_fut c s hr
     plv_cases e with hst q hq
+    all_goals first
+      | exact ih
+      | (ap_norm; exact ih)
+      | (simp_all [pPast, cStill, pCont, setPc_apply]; done)
+      | skip
     all_goals (try q_unfold hq)
     all_goals first
       | exact ih
       | (ap_norm; exact ih)
       | (simp_all [pPast, cStill, pCont, setPc_apply]; done)
-      | (cases ‹PK› <;> simp_all [pPast, cStill, pCont, setPc_apply, kOk]; done)
-      | (simp_all [pPast, cStill, pCont, setPc_apply, kOk, eodIn, pOkOut, inPush]; done)
       | (intro h1 h2 h3
          refine eodIn_setPc_even ?_ hI (ih h1 h2 (cStill_of_setPc_even ?_ hG h3)) <;> omega)
       | (intro h1 h2 h3
@@ -177,8 +180,21 @@ theorem inv_marker (c : Cfg α) : ∀ s, (machine c).Reachable s →
          intro hh
          rw [hh] at hw
          simp at hw; done)
-      | skip
-    all_goals (trace_state; sorry)
+      | (cases ‹PK› <;> simp_all [pPast, cStill, pCont, setPc_apply, kOk]; done)
+      | (simp_all [pPast, cStill, pCont, setPc_apply, kOk, eodIn, pOkOut, inPush]; done)
+
+/-- (I4, PROVED) the parser's last push on the osmdata queue is the end marker and the consumer stops
+    popping after it: if the parser thread has returned and the consumer is blocked inside
+    wait_and_pop(), the wait predicate `!in_use || !empty` holds. -/
+theorem outq_marker (c : Cfg α) (s : State α) (h : (machine c).Reachable s) : OutqMarker s := by
+  intro hp hc _
+  cases hu : s.outq.inUse with
+  | false => simp [QueueSM.pred, hu]
+  | true =>
+    obtain ⟨y, hy, _⟩ := inv_marker c s h hu (by simp [hp, pPast]) (by simp [hc, cStill])
+    cases hi : s.outq.items with
+    | nil => rw [hi] at hy; simp at hy
+    | cons a t => simp [QueueSM.pred, hi]
 
 end Live
 end Osmium.Pipeline
